@@ -186,11 +186,15 @@ def run_driver(case, res):
                     for label2, do2, undo2 in edits(b, g, 'quick')[:8]:
                         if label2 == label:
                             continue
+                        if label[0] == 'remove_edge' and label2[0] == 'add_edge' and label2[1:3] == label[1:3]:
+                            continue   # replaces the removed edge by one between the same nodes (possibly of another type):
+                            #            outside the statement (gains or loses a node / an edge)
                         try:
                             do2(target)
                         except Exception:
                             continue
-                        ok = cmp_equal(target, other, (side,)+label+label2, False)
+                        # the second edit may undo the first one (remove edge e, add edge e): no claim then
+                        ok = struct_key(b, target) == struct_key(b, other) or cmp_equal(target, other, (side,)+label+label2, False)
                         if undo2 is not None:
                             undo2(target)
                         if not ok:
